@@ -395,7 +395,12 @@ func runC04(c *Ctx) {
 	c.L.Floor("C04.hex-table", 1)
 	c04HexTable(c, "C04")
 	// ---- R3 ----
-	if f := c.fn("netutil", "ipv4FromReversed"); f != nil {
+	v4dec := c04V4DecodeExact(c)
+	if v4dec {
+		// decided exactly (c05exact.go): the structural rules are the fall-back
+		c.L.Floor("C04.v4.parse", 0)
+	}
+	if f := c.fn("netutil", "ipv4FromReversed"); f != nil && !v4dec {
 		var pa *ssa.Call
 		for _, ci := range core.CallsTo(f, "net/netip.ParseAddr") {
 			pa = ci.(*ssa.Call)
@@ -420,7 +425,7 @@ func runC04(c *Ctx) {
 		c.L.Floor("C04.v4.exits", 2)
 		c04V4Exits(c, f, pa)
 	}
-	if f := c.fn("netutil", "reverseIPv4"); f != nil {
+	if f := c.fn("netutil", "reverseIPv4"); f != nil && !v4dec {
 		// exact: the four output bytes as Boolean functions of the 32 input bits
 		m := boolfn.New()
 		ev := &boolfn.Eval{M: m, Entered: map[string]bool{}}
@@ -1001,6 +1006,23 @@ func runC05(c *Ctx) {
 	c.L.Floor("C05.skeleton", 6)
 	c.L.Floor("C05.v4-label-count", 1)
 
+	// exact decisions first (c05exact.go): where one succeeds, the structural
+	// rules about the same decoder are only its fall-back
+	v4LabelExact(c, "C05") // the octet test behind indexFirstV4Label (ExtractReversedAddr)
+	v4exact := c05PrefixV4Exact(c)
+	v6exact := c05PrefixV6Exact(c)
+	nSkel := 6
+	if v6exact {
+		nSkel -= 3
+	}
+	if v4exact {
+		nSkel -= 3
+		c.L.Floor("C05.no-leading-zero", 0)
+		c.L.Floor("C05.octet-width", 0)
+		c.L.Floor("C05.v4-label-count", 0)
+	}
+	c.L.Floor("C05.skeleton", nSkel)
+
 	pfr := c.fn("netutil", "PrefixFromReversedAddr")
 	ext := c.fn("netutil", "ExtractReversedAddr")
 	for _, f := range []*ssa.Function{pfr, ext} {
@@ -1071,7 +1093,9 @@ func runC05(c *Ctx) {
 				}
 			})
 		}
-		c.L.Floor("C05.prefix-aligned", 1)
+		if !v4exact {
+			c.L.Floor("C05.prefix-aligned", 1)
+		}
 		a.Hook = func(h *lincon.Handle) {
 			switch in := h.Instr.(type) {
 			case *ssa.Call:
@@ -1136,7 +1160,12 @@ func runC05(c *Ctx) {
 		}
 		a.Entry(ext, nil)
 		a.Entry(pfr, nil)
-		recordObligations(c, a, "C05", func(o *lincon.Oblig) bool { return strings.HasPrefix(o.Kind, "assert:") })
+		recordObligations(c, a, "C05", func(o *lincon.Oblig) bool {
+			if v4exact && (o.Kind == "assert:prefix-aligned" || o.Kind == "assert:no-leading-zero") {
+				return false
+			}
+			return strings.HasPrefix(o.Kind, "assert:")
+		})
 	}
 
 	// ---- scanners test the byte before each candidate label ----
@@ -1216,7 +1245,7 @@ func runC05(c *Ctx) {
 	}
 
 	// ---- octet width ----
-	if v4 != nil {
+	if v4 != nil && !v4exact {
 		for _, ci := range core.CallsTo(v4, "strconv.ParseUint") {
 			base, _ := core.ConstInt(ci.Common().Args[1])
 			bits, _ := core.ConstInt(ci.Common().Args[2])
@@ -1224,13 +1253,6 @@ func runC05(c *Ctx) {
 				"a wider bit size accepts 256..., which byte() then truncates to another octet")
 		}
 		c05Skeleton(c, v4, 8, false)
-	}
-	// the octet test behind indexFirstV4Label (ExtractReversedAddr)
-	v4LabelExact(c, "C05")
-	v6exact := c05PrefixV6Exact(c)
-	if v6exact {
-		// the IPv6 half of the skeleton rules is subsumed by the exact decision
-		c.L.Floor("C05.skeleton", 4)
 	}
 	if v6 != nil && !v6exact {
 		c05Skeleton(c, v6, 4, true)
@@ -1242,7 +1264,7 @@ func runC05(c *Ctx) {
 	c.L.Floor("C05.hex-table", 1)
 	c04HexTable(c, "C05")
 	// ---- caller-side bounds ----
-	if f := c.fn("netutil", "subnetFromReversedV4"); f != nil && v4 != nil {
+	if f := c.fn("netutil", "subnetFromReversedV4"); f != nil && v4 != nil && !v4exact {
 		for _, ci := range core.AllCalls(f) {
 			if ci.Common().StaticCallee() != v4 {
 				continue
@@ -1269,7 +1291,7 @@ func runC05(c *Ctx) {
 				"at most 3 labels reach the partial decoder (k <= 4 labels overall); also the bound behind C01's audited ip[l]")
 		}
 	}
-	if f := c.fn("netutil", "subnetFromReversedV6"); f != nil && v6 != nil {
+	if f := c.fn("netutil", "subnetFromReversedV6"); f != nil && v6 != nil && !v6exact {
 		maxLen, _ := intConst(c, "netutil", "arpaV6MaxLen")
 		for _, ci := range core.AllCalls(f) {
 			if ci.Common().StaticCallee() != v6 {
